@@ -208,3 +208,23 @@ Proof.
   - repeat split; vm_compute; reflexivity.
 Qed.
 Print Assumptions C09_v1_refuted_kwonly.
+
+(* Tie T for the ALGORITHM: the `_src` filters are translated by harness/tables/MissingFieldsAlg.py from
+   the CURRENT source text of errors.py (MissingFields.__init__, both branches) and v1/loaders.py
+   (check_and_raise_missing_fields) on every run; they equal the model's v0_missing / v1_provided /
+   v1_missing for every field list (any mix of required / default / factory / init=False fields) and
+   every key list, so "lists exactly the required init fields that are absent" is a statement about the
+   comprehensions the source spells out now. *)
+From DW Require Import T_MissingFieldsAlg FieldsMissingSrcTie.
+Theorem C09_missing_source_tie :
+  forall (ty V C : Type) (fs : list (fdecl ty V C)),
+    (forall provided, v0_missing_src fs provided = v0_missing fs provided) /\
+    (forall missing, v1_provided_src fs missing = v1_provided fs missing) /\
+    (forall bound, v1_missing_src fs bound = v1_missing fs bound).
+Proof.
+  intros ty V C fs. split; [|split].
+  - intro provided. apply v0_missing_src_eq.
+  - intro missing. apply v1_provided_src_eq.
+  - intro bound. apply v1_missing_src_eq.
+Qed.
+Print Assumptions C09_missing_source_tie.
